@@ -991,3 +991,304 @@ Section Reload.
       apply Inf3. exact Kn.
   Qed.
 End Reload.
+
+(** * the reloaded values equal the saved ones; histories with save/load cycles *)
+Section ReloadHist.
+  Variable succ : N -> N -> option N.
+  Variable rk : N -> Z.
+  Variable wtm : N -> bool.
+  Hypothesis Hrk : forall p m c, succ p m = Some c -> rk p < rk c.
+  Hypothesis Hwtm : forall p m c, succ p m = Some c -> wtm c = negb (wtm p).
+  Variable bd : bdata.
+  Hypothesis Hk : costs_nonneg' bd.
+
+  Lemma KI_all_equations : forall g, KI succ wtm bd g -> all_equations bd g.
+  Proof.
+    intros g [G [[_ D] P]] q Kq. destruct (gi_good succ wtm bd g G q Kq) as [A [B C]].
+    unfold node_ok. split; [exact A|]. split; [exact B|]. split; [exact C|]. split; [apply P; exact Kq|].
+    split; [apply D; exact Kq|]. apply (Inv_eq_links succ g (gi_inv succ wtm bd g G)). exact Kq.
+  Qed.
+
+  Lemma info_outside : forall g n, Inv succ g -> ~ In n (bk_keys g) -> info g n = default_info.
+  Proof.
+    intros g n I Hn. assert (H : has_node g n = false).
+    { destruct (has_node g n) eqn:E; [|reflexivity]. exfalso. apply Hn. apply (inv_keys succ g I). exact E. }
+    unfold has_node in H. unfold info, info_of. destruct (nget n (bk_info g)); [discriminate|reflexivity].
+  Qed.
+
+  Lemma dag_of_rank : forall g, Inv succ g -> dag g.
+  Proof.
+    intros g I. exists (fun q => Z.of_nat (cnt_below rk (bk_keys g) q)). intros p Kp. split; [lia|].
+    intros m c H. destruct (inv_child succ g I p m c H) as [_ [_ [_ S]]].
+    pose proof (cnt_below_parent rk (bk_keys g) c p Kp (Hrk _ _ _ S)). lia.
+  Qed.
+
+  (** saving and reloading reproduces the same graph and the same scores *)
+  Theorem reload_values : forall G recs addrs sl,
+    Full succ wtm bd G -> read_ok succ G recs sl -> bk_pending G = [] ->
+    (bk_err (opRead true bd G recs addrs sl) < ERR_ASSERT)%N ->
+    let g' := opRead true bd G recs addrs sl in
+    forall n, In n (bk_keys G) ->
+      In n (bk_keys g') /\ children g' n = children G n /\ (forall x, In x (parents g' n) <-> In x (parents G n)) /\
+      ni_move (info g' n) = ni_move (info G n) /\ ni_score (info g' n) = ni_score (info G n) /\
+      ni_time (info g' n) = ni_time (info G n) /\
+      depth g' n = depth G n /\ score_of g' n = score_of G n.
+  Proof.
+    intros G recs addrs sl FG RO Pend E g' n Kn.
+    destruct (reload_full succ rk wtm Hrk Hwtm bd Hk G recs addrs sl FG RO E) as [Fg' [Rg' [Pg' [Kg' Per]]]]. fold g' in Fg', Rg', Pg', Kg', Per.
+    destruct (Per n Kn) as [C [P [M [S T]]]].
+    destruct FG as [KG [_ [_ [_ _]]]]. destruct Fg' as [Kg2 [_ [_ [_ _]]]].
+    pose proof (gi_inv succ wtm bd G (proj1 KG)) as IG. pose proof (gi_inv succ wtm bd g' (proj1 Kg2)) as Ig'.
+    assert (SS : same_static G g').
+    { constructor.
+      - symmetry. exact Rg'.
+      - intro x. symmetry. apply Kg'.
+      - intro x. destruct (in_dec N.eq_dec x (bk_keys G)) as [Kx|Nx]; [symmetry; apply (Per x Kx)|].
+        rewrite (info_outside G x IG Nx), (info_outside g' x Ig'); [reflexivity|]. intro H. apply Nx. apply Kg'. exact H.
+      - intro x. destruct (in_dec N.eq_dec x (bk_keys G)) as [Kx|Nx]; [symmetry; apply (Per x Kx)|].
+        rewrite (info_outside G x IG Nx), (info_outside g' x Ig'); [reflexivity|]. intro H. apply Nx. apply Kg'. exact H.
+      - intro x. destruct (in_dec N.eq_dec x (bk_keys G)) as [Kx|Nx]; [symmetry; apply (Per x Kx)|].
+        rewrite (proj1 (no_links_outside succ G x IG Nx)).
+        rewrite (proj1 (no_links_outside succ g' x Ig' (fun H => Nx (proj1 (Kg' x) H)))). reflexivity.
+      - intros x y. destruct (in_dec N.eq_dec x (bk_keys G)) as [Kx|Nx]; [symmetry; apply (Per x Kx)|].
+        rewrite (proj2 (no_links_outside succ G x IG Nx)).
+        rewrite (proj2 (no_links_outside succ g' x Ig' (fun H => Nx (proj1 (Kg' x) H)))). reflexivity.
+      - intro x. rewrite Pend, Pg'. reflexivity. }
+    destruct (equations_unique bd G g' SS (dag_of_rank G IG) (KI_all_equations G KG) (KI_all_equations g' Kg2) n Kn) as [Dn Sn].
+    split; [apply Kg'; exact Kn|]. split; [exact C|]. split; [exact P|]. split; [exact M|]. split; [exact S|]. split; [exact T|].
+    split; [symmetry; exact Dn|symmetry; exact Sn].
+  Qed.
+
+  (** ** operations with the additional input conditions *)
+  Definition op_ok2 (g : book) (o : op) : Prop :=
+    match o with
+    | OpAdd h _ pl cl =>
+        op_ok succ g o /\ (h < U64_BOUND)%N /\
+        (forall p m, In p (bk_keys g) -> succ p m = Some h -> In (m, p) pl) /\
+        (forall m c, In c (bk_keys g) -> succ h m = Some c -> In (m, c) cl)
+    | OpSet _ mv _ t => op_ok succ g o /\ (mv < U16_BOUND)%N /\ (t < U32_BOUND)%N
+    | OpPend _ | OpUnpend _ => op_ok succ g o
+    | OpRead recs _ sl => read_ok succ g recs sl
+    end.
+
+  (** a history in which no assert of the code fails and no path error overflows *)
+  Fixpoint steps_ok (g : book) (ops : list op) : Prop :=
+    match ops with
+    | [] => True
+    | o :: t => op_ok2 g o /\ (bk_err (apply_op true bd g o) < ERR_ASSERT)%N /\ steps_ok (apply_op true bd g o) t
+    end.
+
+  Lemma fold_link_fields : forall h l g0,
+    bk_keys (fold_left (fun g mp => link g (snd mp) (fst mp) h) l g0) = bk_keys g0 /\
+    bk_info (fold_left (fun g mp => link g (snd mp) (fst mp) h) l g0) = bk_info g0.
+  Proof.
+    intro h. induction l as [|mp t IH]; intro g0; cbn [fold_left]; [split; reflexivity|].
+    destruct (IH (link g0 (snd mp) (fst mp) h)) as [A B]. rewrite A, B, link_unfold. split; reflexivity.
+  Qed.
+
+  Lemma children_mono_fold : forall h l g0 q x, In x (children g0 q) ->
+    In x (children (fold_left (fun g mp => link g (snd mp) (fst mp) h) l g0) q).
+  Proof.
+    intro h. induction l as [|mp t IH]; intros g0 q x H; cbn [fold_left]; [exact H|]. apply IH. apply children_link_incl. exact H.
+  Qed.
+
+  Lemma children_mono_refs : forall l g0 n q x, In x (children g0 q) -> In x (children (setChildRefs g0 n l) q).
+  Proof.
+    unfold setChildRefs. induction l as [|mc t IH]; intros g0 n q x H; cbn [fold_left]; [exact H|].
+    destruct (has_node g0 (snd mc)); [apply IH; apply children_link_incl; exact H|apply IH; exact H].
+  Qed.
+
+  Lemma opAdd_keys_info : forall g h addr pl cl,
+    bk_keys (opAdd true bd g h addr pl cl) = add_key h (bk_keys g) /\
+    forall q, info (opAdd true bd g h addr pl cl) q =
+              if N.eqb q h then mkInfo addr 0 INVALID_SCORE 0 ST_INITIALIZED else info g q.
+  Proof.
+    intros g h addr pl cl. unfold opAdd.
+    set (g0 := new_node g h addr (mkInfo addr 0 INVALID_SCORE 0 ST_EMPTY) INT_MAX default_scores).
+    set (g2 := fold_left (fun g mp => link g (snd mp) (fst mp) h) pl g0).
+    destruct (fold_link_fields h pl g0) as [K2 F2]. fold g2 in K2, F2.
+    destruct (setChildRefs_fields cl g2 h) as [K3 [F3 _]].
+    destruct (updateScores_fields true bd (setChildRefs g2 h cl) h) as [K4 [F4 _]].
+    split; [cbn [set_state set_info bk_keys]; rewrite K4, K3, K2; reflexivity|].
+    assert (InfX : forall q, info (updateScores true bd (setChildRefs g2 h cl) h) q = info g0 q).
+    { intro q. unfold info. rewrite F4, F3, F2. reflexivity. }
+    assert (Inf0 : forall q, info g0 q = if N.eqb q h then mkInfo addr 0 INVALID_SCORE 0 ST_EMPTY else info g q).
+    { intro q. unfold info, g0, new_node, info_of. cbn [bk_info]. rewrite nget_nset. destruct (N.eqb q h); reflexivity. }
+    intro q. rewrite info_set_state, !InfX, !Inf0, N.eqb_refl. destruct (N.eqb q h); reflexivity.
+  Qed.
+
+  Lemma setChildRefs_adds : forall l g n m c,
+    Inv succ g -> In n (bk_keys g) -> succ_list_ok succ n l -> In (m, c) l -> has_node g c = true ->
+    In (m, c) (children (setChildRefs g n l) n).
+  Proof.
+    unfold setChildRefs. induction l as [|[m' c'] t IH]; intros g n m c I Kn Hs Hin HN; [destruct Hin|]. cbn [fold_left fst snd].
+    destruct Hin as [E|Hin].
+    - inversion E; subst m' c'. rewrite HN.
+      apply (children_mono_refs t (link g n m c) n n (m, c)). apply (children_link_new succ); [exact I|apply Hs; left; reflexivity].
+    - destruct (has_node g c') eqn:HN'.
+      + assert (Kc' : In c' (bk_keys g)) by (apply (inv_keys succ g I); exact HN').
+        apply IH; [apply Inv_link; [exact I|exact Kn|exact Kc'|apply Hs; left; reflexivity]|rewrite keys_link; exact Kn|
+                   intros a b H; apply Hs; right; exact H|exact Hin|rewrite has_node_link; exact HN].
+      + apply IH; [exact I|exact Kn|intros a b H; apply Hs; right; exact H|exact Hin|exact HN].
+  Qed.
+
+  Lemma fold_plinks_adds : forall pl g h m p,
+    Inv succ g -> In h (bk_keys g) -> (forall m' p', In (m', p') pl -> In p' (bk_keys g) /\ succ p' m' = Some h) ->
+    In (m, p) pl -> In (m, h) (children (fold_left (fun g mp => link g (snd mp) (fst mp) h) pl g) p).
+  Proof.
+    induction pl as [|[m' p'] t IH]; intros g h m p I Kh Hpl Hin; [destruct Hin|]. cbn [fold_left fst snd].
+    destruct (Hpl m' p' (or_introl eq_refl)) as [Kp' Sp'].
+    destruct Hin as [E|Hin].
+    - inversion E; subst m' p'. apply children_mono_fold. apply (children_link_new succ); assumption.
+    - apply IH; [apply Inv_link; assumption|rewrite keys_link; exact Kh| |exact Hin].
+      intros a b H. rewrite keys_link. apply Hpl. right; exact H.
+  Qed.
+
+  Lemma Full_updateScores : forall g g1 h,
+    Full succ wtm bd g -> bk_keys g1 = bk_keys g -> bk_children g1 = bk_children g ->
+    (forall q, In q (bk_keys g) -> in_ranges g1 q) ->
+    KI succ wtm bd (updateScores true bd g1 h) -> bk_err (updateScores true bd g1 h) = 0%N ->
+    Full succ wtm bd (updateScores true bd g1 h).
+  Proof.
+    intros g g1 h [_ [[ND Rg] [CSg [LCg _]]]] K1 C1 Rg1 KI' E'.
+    destruct (updateScores_fields true bd g1 h) as [K4 [F4 [C4 _]]].
+    split; [exact KI'|]. split; [|split; [|split; [|exact E']]].
+    - split; [rewrite K4, K1; exact ND|]. intros q Kq. rewrite K4, K1 in Kq.
+      specialize (Rg1 q Kq). unfold in_ranges, info in *. rewrite F4. exact Rg1.
+    - apply (CS_frame g); [rewrite C4; exact C1|exact CSg].
+    - intros n m c Kn Kc S. rewrite K4, K1 in Kn, Kc. unfold children. rewrite C4, C1. apply LCg; assumption.
+  Qed.
+
+  Lemma Full_apply_op : forall g o, Full succ wtm bd g -> op_ok2 g o ->
+    (bk_err (apply_op true bd g o) < ERR_ASSERT)%N -> Full succ wtm bd (apply_op true bd g o).
+  Proof.
+    intros g o FG W L. destruct o as [h addr pl cl|h mv s t|h|h|recs addrs sl].
+    - (* addPosToBook *)
+      destruct W as [W [Hh [Cp Cc]]]. destruct FG as [KG [[ND Rg] [CSg [LCg Eg]]]].
+      assert (E1 : bk_err (apply_op true bd g (OpAdd h addr pl cl)) = 0%N).
+      { apply (err_zero_step succ rk wtm Hrk Hwtm true bd); try assumption. apply KG. }
+      assert (K1 : KI succ wtm bd (apply_op true bd g (OpAdd h addr pl cl))) by (apply (KI_apply_op succ rk wtm Hrk Hwtm bd Hk); assumption).
+      cbn [apply_op] in *. destruct (opAdd_keys_info g h addr pl cl) as [Kk Inf].
+      destruct W as [[Hfresh [Hpl Hcl]] [Hne Hsz]].
+      assert (Kk' : bk_keys (opAdd true bd g h addr pl cl) = h :: bk_keys g).
+      { rewrite Kk. unfold add_key. destruct (mem h (bk_keys g)) eqn:M; [apply mem_in in M; contradiction|reflexivity]. }
+      pose proof (gi_inv succ wtm bd g (proj1 KG)) as I.
+      split; [exact K1|]. split; [|split; [apply CS_opAdd; exact CSg|split; [|exact E1]]].
+      + split; [rewrite Kk'; constructor; assumption|].
+        intros q Kq. rewrite Kk' in Kq. unfold in_ranges. rewrite Inf. destruct (N.eqb_spec q h) as [->|Hq].
+        * cbn [ni_move ni_score ni_time]. rewrite INVALID_val. unfold U16_BOUND, U32_BOUND. repeat split; try assumption; lia.
+        * destruct Kq as [E0|Kq]; [symmetry in E0; contradiction|]. apply Rg. exact Kq.
+      + (* link completeness *)
+        intros n m c Kn Kc S. rewrite Kk' in Kn, Kc.
+        set (g0 := new_node g h addr (mkInfo addr 0 INVALID_SCORE 0 ST_EMPTY) INT_MAX default_scores).
+        set (g2 := fold_left (fun g mp => link g (snd mp) (fst mp) h) pl g0).
+        assert (ChF : forall q, children (opAdd true bd g h addr pl cl) q = children (setChildRefs g2 h cl) q).
+        { intro q. unfold opAdd. fold g0. fold g2.
+          destruct (updateScores_fields true bd (setChildRefs g2 h cl) h) as [_ [_ [C4 _]]].
+          unfold children. cbn [set_state set_info bk_children]. rewrite C4. reflexivity. }
+        rewrite ChF.
+        destruct (no_links_outside succ g h I Hfresh) as [C0 P0].
+        assert (I0 : Inv succ g0) by (apply Inv_new_node; assumption).
+        assert (K0 : forall x, In x (bk_keys g0) <-> x = h \/ In x (bk_keys g)) by (intro x; apply in_add_key).
+        assert (Hpl0 : forall m' p', In (m', p') pl -> In p' (bk_keys g0) /\ succ p' m' = Some h).
+        { intros m' p' H. destruct (Hpl m' p' H) as [A B]. split; [apply K0; right; exact A|exact B]. }
+        destruct (fold_link_parents succ pl g0 h I0 (proj2 (K0 h) (or_introl eq_refl)) Hpl0) as [I2 K2]. fold g2 in I2, K2.
+        assert (Ch0 : forall q, q <> h -> children g0 q = children g q).
+        { intros q Hq. unfold children, g0, new_node, links_of. cbn [bk_children]. rewrite nget_nset_other by exact Hq. reflexivity. }
+        destruct (N.eq_dec n h) as [->|Hn].
+        * assert (Hc : c <> h) by (intro; subst c; pose proof (Hrk _ _ _ S); lia).
+          destruct Kc as [E0|Kc]; [symmetry in E0; contradiction|].
+          apply (setChildRefs_adds cl g2 h m c I2); [rewrite K2; apply K0; left; reflexivity|exact Hcl|apply Cc; assumption|].
+          apply (inv_keys succ g2 I2). rewrite K2. apply K0. right; exact Kc.
+        * destruct Kn as [E0|Kn]; [symmetry in E0; contradiction|]. apply children_mono_refs.
+          destruct (N.eq_dec c h) as [->|Hc].
+          -- apply (fold_plinks_adds pl g0 h m n I0 (proj2 (K0 h) (or_introl eq_refl)) Hpl0). apply Cp; assumption.
+          -- destruct Kc as [E0|Kc]; [symmetry in E0; contradiction|]. apply children_mono_fold. rewrite (Ch0 n Hn). apply LCg; assumption.
+    - (* setSearchResult *)
+      destruct W as [W [Hm Ht]]. pose proof FG as FG0. destruct FG as [KG [[ND Rg] [CSg [LCg Eg]]]].
+      assert (E1 : bk_err (apply_op true bd g (OpSet h mv s t)) = 0%N).
+      { apply (err_zero_step succ rk wtm Hrk Hwtm true bd); try assumption. apply KG. }
+      assert (K1 : KI succ wtm bd (apply_op true bd g (OpSet h mv s t))) by (apply (KI_apply_op succ rk wtm Hrk Hwtm bd Hk); assumption).
+      cbn [apply_op] in *. unfold opSet in *.
+      apply (Full_updateScores g); try assumption; try reflexivity.
+      intros q Kq. unfold in_ranges. destruct (Rg q Kq) as [r1 [r2 [r3 r4]]].
+      destruct (N.eq_dec q h) as [->|Hq].
+      + unfold info, set_info, info_of. cbn [bk_info]. rewrite nget_nset_same. cbn [ni_move ni_score ni_time].
+        pose proof (wrap16_range s). repeat split; try assumption; lia.
+      + rewrite (info_set_info_other g h _ q Hq). repeat split; try assumption; lia.
+    - (* addPending *)
+      pose proof FG as FG0. destruct FG as [KG [[ND Rg] [CSg [LCg Eg]]]].
+      assert (E1 : bk_err (apply_op true bd g (OpPend h)) = 0%N).
+      { apply (err_zero_step succ rk wtm Hrk Hwtm true bd); try assumption. apply KG. }
+      assert (K1 : KI succ wtm bd (apply_op true bd g (OpPend h))) by (apply (KI_apply_op succ rk wtm Hrk Hwtm bd Hk); assumption).
+      cbn [apply_op] in *. unfold opPend in *.
+      apply (Full_updateScores g); try assumption; try reflexivity; try (intros q Kq; apply (Rg q Kq)).
+    - (* removePending *)
+      pose proof FG as FG0. destruct FG as [KG [[ND Rg] [CSg [LCg Eg]]]].
+      assert (E1 : bk_err (apply_op true bd g (OpUnpend h)) = 0%N).
+      { apply (err_zero_step succ rk wtm Hrk Hwtm true bd); try assumption. apply KG. }
+      assert (K1 : KI succ wtm bd (apply_op true bd g (OpUnpend h))) by (apply (KI_apply_op succ rk wtm Hrk Hwtm bd Hk); assumption).
+      cbn [apply_op] in *. unfold opUnpend in *.
+      apply (Full_updateScores g); try assumption; try reflexivity; try (intros q Kq; apply (Rg q Kq)).
+    - (* readFromFile *)
+      cbn [apply_op] in *. apply (reload_full succ rk wtm Hrk Hwtm bd Hk g recs addrs sl FG W L).
+  Qed.
+
+  Theorem Full_run : forall ops g, Full succ wtm bd g -> steps_ok g ops -> Full succ wtm bd (run true bd g ops).
+  Proof.
+    induction ops as [|o t IH]; intros g F S; cbn [run fold_left] in *; [exact F|].
+    destruct S as [W [L S']]. apply IH; [apply Full_apply_op; assumption|exact S'].
+  Qed.
+
+  Lemma Full_newBook : forall r a, wtm r = true -> (r < U64_BOUND)%N -> Full succ wtm bd (newBook r a).
+  Proof.
+    intros r a Hr Hb.
+    assert (K : KI succ wtm bd (newBook r a)).
+    { split; [apply (GI_newBook succ wtm bd); exact Hr|]. split; [apply DI_newBook|apply PI_newBook]. }
+    split; [exact K|]. rewrite newBook_eq in *.
+    set (g := new_node (empty_book r) r a (mkInfo a 0 INVALID_SCORE 0 ST_INITIALIZED) 0 root_scores) in *.
+    assert (Kg : bk_keys g = [r]) by reflexivity.
+    split; [|split; [|split; [|reflexivity]]].
+    - split; [rewrite Kg; constructor; [intros []|constructor]|].
+      intros q Kq. rewrite Kg in Kq. destruct Kq as [<-|[]]. unfold in_ranges, info, g, new_node, info_of. cbn [bk_info].
+      rewrite nget_nset_same. cbn [ni_move ni_score ni_time]. rewrite INVALID_val. unfold U16_BOUND, U32_BOUND. repeat split; try assumption; lia.
+    - apply CS_new_node. intro n. unfold children, empty_book, links_of. cbn. rewrite nget_nempty. constructor.
+    - intros n m c Kn Kc S. rewrite Kg in Kn, Kc. destruct Kn as [<-|[]]. destruct Kc as [<-|[]].
+      pose proof (Hrk _ _ _ S). lia.
+  Qed.
+
+  (** C19_fixpoint with save/load cycles: after every history of add / set / pending / reload
+      operations in which no assert fails and no path error overflows, every node satisfies all
+      its defining equations *)
+  Theorem fixpoint_reload : forall root addr ops,
+    wtm root = true -> (root < U64_BOUND)%N ->
+    steps_ok (newBook root addr) ops ->
+    all_equations bd (run true bd (newBook root addr) ops) /\ bk_err (run true bd (newBook root addr) ops) = 0%N.
+  Proof.
+    intros root addr ops Hr Hb S.
+    destruct (Full_run ops (newBook root addr) (Full_newBook root addr Hr Hb) S) as [K [_ [_ [_ E]]]].
+    split; [apply KI_all_equations; exact K|exact E].
+  Qed.
+
+  (** ... and a reload at the end reproduces the graph and all per-node values *)
+  Theorem reload_reproduces : forall root addr ops recs addrs sl,
+    wtm root = true -> (root < U64_BOUND)%N ->
+    steps_ok (newBook root addr) ops ->
+    let G := run true bd (newBook root addr) ops in
+    bk_pending G = [] -> read_ok succ G recs sl ->
+    (bk_err (opRead true bd G recs addrs sl) < ERR_ASSERT)%N ->
+    let g' := opRead true bd G recs addrs sl in
+    all_equations bd g' /\
+    forall n, In n (bk_keys G) ->
+      In n (bk_keys g') /\ children g' n = children G n /\ (forall x, In x (parents g' n) <-> In x (parents G n)) /\
+      ni_move (info g' n) = ni_move (info G n) /\ ni_score (info g' n) = ni_score (info G n) /\
+      ni_time (info g' n) = ni_time (info G n) /\
+      depth g' n = depth G n /\ score_of g' n = score_of G n.
+  Proof.
+    intros root addr ops recs addrs sl Hr Hb S G Pend RO E g'.
+    pose proof (Full_run ops (newBook root addr) (Full_newBook root addr Hr Hb) S) as FG. fold G in FG.
+    split.
+    - destruct (reload_full succ rk wtm Hrk Hwtm bd Hk G recs addrs sl FG RO E) as [[K _] _]. apply KI_all_equations. exact K.
+    - apply reload_values; assumption.
+  Qed.
+End ReloadHist.
